@@ -17,7 +17,10 @@ import (
 
 func TestMain(m *testing.M) {
 	ev.SetProperty(os.Getenv("VERIF_PROPERTY"))
-	if os.Getenv("VERIF_PROPERTY") != "C16" {
+	switch os.Getenv("VERIF_PROPERTY") {
+	case "C16": // checks the class contents against the documented constants
+	case "C09", "C15": // their first sub-check must be the first use of the library in the process; they learn afterwards
+	default:
 		learnClasses()
 	}
 	ev.Main(m)
